@@ -89,6 +89,22 @@ func genPlan(t *rapid.T) interface{} {
 			T: int64(rapid.IntRange(0, p.Groups-1).Draw(t, l+".g"))*int64(time.Hour) + int64(rapid.IntRange(0, 3599).Draw(t, l+".s"))*int64(time.Second),
 		})
 	}
+	// Within a measurement a timestamp belongs to one series: which of two
+	// points of different series with equal timestamps a merged selector or a
+	// raw select sees first is unspecified.
+	type mt struct {
+		m string
+		t int64
+	}
+	seen := map[mt][2]string{}
+	for i := range p.Points {
+		q := &p.Points[i]
+		if o, ok := seen[mt{q.M, q.T}]; ok {
+			q.A, q.B = o[0], o[1]
+		} else {
+			seen[mt{q.M, q.T}] = [2]string{q.A, q.B}
+		}
+	}
 	ne := rapid.IntRange(0, 4).Draw(t, "nedits")
 	for i := 0; i < ne; i++ {
 		l := fmt.Sprintf("e%d", i)
